@@ -12,6 +12,8 @@ import Ptn.C17.Cache
 import Ptn.C17.Contig
 import Ptn.C17.Cut
 import Ptn.C17.Last
+import Ptn.C17.Segments
+import Ptn.C17.DistTree
 /-! Property theorems for C17 (tree navigation, TDVP sweep order, initial cache keys).  Only
 property theorems and non-vacuity examples live here; helper lemmas are in `Lemmas.lean`,
 `Tree.lean`, `Path.lean`, ….  All theorems quantify over every ordered rooted tree `t` with
@@ -230,5 +232,19 @@ theorem init_cache_keys (t : RTree) (hwf : t.WF) (c : Nat) (hc : c ∈ ids t) :
 example : cacheKeys 7 exTree = some [(3, 1), (4, 1), (1, 0), (2, 0), (0, 5), (5, 6), (6, 7)] := by
   decide
 example : 7 ∈ ids exTree := by decide
+
+/-! ### Segments of the TDVP sweep and the distance table (exported to C05 / C03)
+
+The theorems `segs_nodes`, `segs_edges_perm`, `segs_point_to_last`, `segs_last_adjacent`,
+`segs_degree`, `edges_unord_nodup` (file `Segments.lean`) and `dist_table`, `mem_nbrsOf` (file
+`DistTree.lean`) are stated there because `lean/Ptn/C05/Tree.lean` and `lean/Ptn/C03/Tree.lean`
+import those files; they are listed in `obligations/C17.txt`.  Non-vacuity: -/
+
+example : segsOf? exTree = some [(7, 6), (6, 5), (5, 0), (2, 0), (0, 1), (4, 1), (1, 3)] ∧
+    lastOf exTree = 3 := by decide
+example : (edges exTree).map unord = [(0, 1), (1, 3), (1, 4), (0, 2), (0, 5), (5, 6), (6, 7)] := by
+  decide
+example : firstHop exTree 2 3 = some 0 ∧ firstHop exTree 0 3 = some 1 := by decide
+example : nbrsOf exTree 1 = [0, 3, 4] ∧ nbrsOf exTree 0 = [1, 2, 5] := by decide
 
 end Ptn.C17
